@@ -1,5 +1,8 @@
 //! C15: forked histories on the real `flag::*` actions with real signals.
 //!   flag b<k> | usize u<k> <v> | shutdown <status> b<k> | set <flag> <v> | raise
+//!   reraiser   — a raw action that raises the same signal again, once, from inside the delivery
+//!                (the signal is blocked while its handler runs, so the second delivery starts
+//!                when the first has returned)
 use crate::common::*;
 use std::sync::atomic::{AtomicBool, AtomicUsize, Ordering};
 use std::sync::Arc;
@@ -36,6 +39,13 @@ fn run_child(ops: &[String]) {
             ["set", f, v] => {
                 let v: usize = v.parse().unwrap();
                 if f.starts_with('b') { getb(&mut bools, f).store(v != 0, Ordering::SeqCst); } else { getu(&mut usizes, f).store(v, Ordering::SeqCst); }
+                println!("ok");
+            }
+            ["reraiser"] => {
+                let fired = Arc::new(AtomicBool::new(false));
+                unsafe { signal_hook_registry::register(sig, move || {
+                    if !fired.swap(true, Ordering::SeqCst) { libc::raise(sig); }
+                }) }.unwrap();
                 println!("ok");
             }
             ["raise"] => {
